@@ -286,6 +286,8 @@ pub type OptU8 = Option<u8>;
 pub fn draw_opt_alias(g: &mut Gen) -> OptU8 { if g.chance(100) { None } else { Some(g.u8()) } }
 
 /// `Box<Option<T>>`: presence of the inner value is drawn from the tape (it is not an optional *field*).
+/// An `Option` that is a mandatory field's value (its `None` is an explicit null on the wire), drawn independently of the presence mask.
+pub fn draw_plain_opt<'a, T: Draw<'a>>(g: &mut Gen, ar: &'a Arena) -> Option<T> { if g.chance(110) { None } else { Some(T::draw(g, ar, &mut Presence::random())) } }
 pub fn draw_box_opt<'a, T: Draw<'a>>(g: &mut Gen, ar: &'a Arena) -> Box<Option<T>> { Box::new(if g.chance(110) { None } else { Some(T::draw(g, ar, &mut Presence::random())) }) }
 
 /// Codec functions that forward to the type's own impls (`decode_with` / `encode_with` attributes on ordinary fields).
